@@ -116,6 +116,8 @@ MUTANTS = [
     ('C18', 'single-dedent-per-newline', [R('lark/indenter.py', '            while indent < self.indent_level[-1]:\n                self.indent_level.pop()', '            if indent < self.indent_level[-1]:\n                self.indent_level.pop()')]),
     ('C18', 'tabs-count-4', [R('lark/indenter.py', "indent_str.count('\\t') * self.tab_len", "indent_str.count('\\t') * 4")]),
     ('C10', 'open-from-package-appends-to-callers-list (revert of 7468301)', [R('lark/lark.py', "        options['import_paths'] = [*options.get('import_paths', ()), package_loader]\n", "        options.setdefault('import_paths', [])\n        options['import_paths'].append(package_loader)\n")]),
+    ('C10', 'lalr-item-sets-in-plain-sets (revert of a6648a9)', [R('lark/parsers/lalr_analysis.py', "        self.lr0_itemsets = OrderedSet()\n", "        self.lr0_itemsets = set()\n"),
+                                                                  R('lark/parsers/lalr_analysis.py', "        self.lookback = defaultdict(OrderedSet)\n", "        self.lookback = defaultdict(set)\n")]),
     ('C12', 'load-errors-narrowed-to-unpickling-error', [R('lark/lark.py', '                except Exception: # We should probably narrow done which errors we catch here.', '                except pickle.UnpicklingError:')]),
     ('C12', 'version-dropped-from-key', [R('lark/lark.py', "s = repr((grammar, options_key, __version__, sys.version_info[:2],", "s = repr((grammar, options_key, sys.version_info[:2],")]),
     ('C12', 'python-version-dropped-from-key', [R('lark/lark.py', "s = repr((grammar, options_key, __version__, sys.version_info[:2],", "s = repr((grammar, options_key, __version__,")]),
